@@ -149,6 +149,9 @@ Emit == Done =>
                  (* the documented channel for an argument that is not a dataframe at all: TypeError, or pandera's own   *)
                  (* BackendNotFoundError ("no validation back end for this type")                                       *)
                  nonframe |-> {"TypeError", "BackendNotFoundError"},
+                 (* C02: what the lazy report must name - per constraint, the rows of the selection that violate it *)
+                 failing |-> [j \in 1..Len(Stages) |-> SetToSeq(Fail(Stages[j], S, D, rows))],
+                 sel_same |-> (ShippedSelection = rows),
                  asis |-> IF mode = "subsample" THEN ShippedVerdict ELSE IF ShippedDropLeaks THEN "Leak:NameError" ELSE out.kind,
                  asis_kept |-> IF mode = "drop" THEN ShippedKept ELSE <<>>,
                  devs |-> (IF mode = "subsample" /\ ShippedVerdict # out.kind
